@@ -122,8 +122,14 @@ def loc_s(loc):
 
 
 def bits(a):
-    a = list(np.asarray(a).reshape(-1))
-    return ''.join(str(int(v)) for v in a) if a else '-'
+    a = np.asarray(a).reshape(-1)
+    if a.size == 0:
+        return '-'
+    if a.dtype == bool:
+        a = a.astype(np.uint8)
+    if ((a == 0) | (a == 1)).all():
+        return (a.astype(np.uint8) + 48).tobytes().decode('ascii')
+    return ''.join(str(int(v)) for v in a)
 
 
 def corr_s(d):
@@ -464,8 +470,13 @@ def check_case(case):
             if not np.array_equal(init, face_syndrome(code, err)):
                 return 'initial state differs from the face syndrome of the error'
             last_signs, last_corr = init, {}
+            checked = set()
             for i, st in enumerate(steps):
                 op = st['dict_out']
+                last_signs, last_corr = st['arr_out'], op
+                if (st['signs_out'], st['corr_out']) in checked:
+                    continue        # same state as an earlier step of this run
+                checked.add((st['signs_out'], st['corr_out']))
                 if not z_only(code, op):
                     return f'step {i}: correction is not a Z-only operator on qubits: {corr_s(op)}'
                 tot = (err + code.to_bsf(op)) % 2
@@ -474,7 +485,6 @@ def check_case(case):
                     return (f'step {i}: tracked excitations {np.nonzero(st["arr_out"])[0].tolist()} != face '
                             f'syndrome of error+correction {np.nonzero(want)[0].tolist()} '
                             f'(correction {corr_s(op)})')
-                last_signs, last_corr = st['arr_out'], op
             res = np.array(result).astype(int).reshape(-1)
             if not np.array_equal(res % 2, np.array(code.to_bsf(last_corr)).astype(int) % 2) or res[:code.n].any():
                 return 'returned correction is not the Z-only operator accumulated by the automaton'
